@@ -51,7 +51,7 @@ fn fault_to_json(f: &Fault) -> Value {
         FaultKind::Replace(b) => ("flap", json!(String::from_utf8_lossy(b))),
         k => (k.name(), Value::Null),
     };
-    json!({"path": f.path.to_string_lossy(), "nth": f.nth, "op": if f.op == Op::Read { "read" } else { "write" }, "kind": kind, "arg": arg})
+    json!({"path": f.path.to_string_lossy(), "nth": f.nth, "op": match f.op { Op::Read => "read", Op::Write => "write", Op::WriteData => "write_data" }, "kind": kind, "arg": arg})
 }
 
 fn fault_from_json(v: &Value) -> Option<Fault> {
@@ -69,7 +69,11 @@ fn fault_from_json(v: &Value) -> Option<Fault> {
     Some(Fault {
         path: PathBuf::from(v.get("path")?.as_str()?),
         nth: v.get("nth")?.as_u64()? as u32,
-        op: if v.get("op")?.as_str()? == "read" { Op::Read } else { Op::Write },
+        op: match v.get("op")?.as_str()? {
+            "read" => Op::Read,
+            "write_data" => Op::WriteData,
+            _ => Op::Write,
+        },
         kind,
     })
 }
@@ -244,6 +248,11 @@ pub fn gen_case(seed: u64, k: u64) -> Case {
         // output side: the target directory / output files cannot be written
         let path = disk::normalize(&Path::new(WS).join(rng.pick_str(&["target/main.prg", "target/main.bin", "target/main.lst", "target/main.vs"])));
         faults.push(Fault { path, nth: 0, op: Op::Write, kind: if rng.chance(1, 2) { FaultKind::NoSpace } else { FaultKind::PermissionDenied } });
+    }
+    if rng.chance(1, 12) {
+        // the output file can be created, but a write to it fails (disk full, I/O error)
+        let path = disk::normalize(&Path::new(WS).join(rng.pick_str(&["target/main.prg", "target/main.bin", "target/main.lst", "target/main.vs"])));
+        faults.push(Fault { path, nth: *rng.pick(&[0u32, 1, 2]), op: Op::WriteData, kind: if rng.chance(1, 2) { FaultKind::NoSpace } else { FaultKind::IoError } });
     }
     let pipeline = rng.pick_str(PIPELINES).to_string();
     if pipeline == "format" && rng.chance(1, 6) {
@@ -471,6 +480,22 @@ fn execute_inner(c: &Case, paths: &BTreeSet<PathBuf>, stats: &mut RunStats) -> O
                 Err(_) => Some(panic_found("build", "build_command")),
                 Ok(Ok(())) => {
                     stats.result = "ok".into();
+                    // an I/O error while writing the binary must not be swallowed
+                    let failed: Vec<String> = disk::with(|d| {
+                        d.data_write_failures
+                            .iter()
+                            .map(|p| p.to_string_lossy().to_string())
+                            .filter(|p| !p.ends_with(".lst") && !p.ends_with(".vs"))
+                            .collect()
+                    })
+                    .unwrap_or_default();
+                    if !failed.is_empty() {
+                        return Some(Found {
+                            class: "silent_write_failure".into(),
+                            sig: "silent_write_failure:build".into(),
+                            message: format!("build reported success although writing the binary {:?} failed: neither a complete binary nor a diagnostic", failed),
+                        });
+                    }
                     // a binary must have been written
                     let wrote = disk::with(|d| d.written.iter().any(|p| !p.to_string_lossy().ends_with(".lst") && !p.to_string_lossy().ends_with(".vs"))).unwrap_or(false);
                     if !wrote {
